@@ -57,7 +57,7 @@ let parse_msg (s : string) : msg =
 
 let parse_label (s : string) : label =
   let num k = nat_of_int (int_of_string (tail_from s k)) in
-  if s = "C" then LCreate else if s = "D" then LRdv else if s = "HY" then LHYield
+  if s = "C" then LCreate else if s = "RF" then LRefuse else if s = "D" then LRdv else if s = "HY" then LHYield
   else if String.length s > 2 && String.sub s 0 2 = "HR" then LHResume (num 2)
   else if String.length s > 2 && String.sub s 0 2 = "HD" then LHDone (parse_msg (tail_from s 2))
   else match s.[0] with
